@@ -369,17 +369,25 @@ theorem own2_push (hΓ : Γ2 a g p) (hN : N g) (hvg : VG g) (hvp : VP g p) (hq :
   have hK := keep_all (.gitPush) (pc := pc) (t := t) hΓ hvg hvp
   have hl := hl_of (.gitPush) (g := g) (p := p) (pc := pc) (t := t)
   simp [tf2] at htf; subst htf
-  obtain ⟨h, hh, f1, f2, f3, f4⟩ := push_form hq.1
+  obtain ⟨h, hh, f4, f3, f1, fok, ffail⟩ := push_form hq.1
+  have hpol : ∀ i, polOf (exec Cmd.gitPush g p).1 i = polOf g i := fun i => by simp [polOf, f3]
   auto2 hK
   · rename_i hf
     simp at hf
     refine ⟨hl (hΓ.holds hf), h, f4, ?_⟩
-    rw [f1]
+    rw [hpol, hpol, f1]
   · rename_i hf
-    simp at hf
-    refine ⟨hl (hΓ.holds hf), ?_⟩
-    show polOf _ (exec Cmd.gitPush g p).2.1.base = _
-    rw [f2, f1]
+    cases hok : (exec Cmd.gitPush g p).2.2
+    · simp [hok] at hf
+      obtain ⟨hL, hb⟩ := hΓ.baseR hf
+      obtain ⟨e1, e2⟩ := ffail hok
+      refine ⟨hl hL, ?_⟩
+      show polOf _ (exec Cmd.gitPush g p).2.1.base = _
+      rw [hpol, hpol, e1, e2]; exact hb
+    · simp [hok] at hf
+      refine ⟨hl (hΓ.holds hf), ?_⟩
+      show polOf _ (exec Cmd.gitPush g p).2.1.base = _
+      rw [fok hok]
   · rename_i hf
     simp at hf
     obtain ⟨hL, h', hh', hp⟩ := hΓ.hPol hf
@@ -389,8 +397,8 @@ theorem own2_push (hΓ : Γ2 a g p) (hN : N g) (hvg : VG g) (hvp : VP g p) (hq :
     refine ⟨hl hL, ?_⟩
     show (exec Cmd.gitPush g p).2.1.policy ≤ _
     rw [fr_policy _ g p rfl]
-    simp only [Rg, polOf, f1, f3] at hp ⊢
-    rw [hp]; simp
+    simp only [Rg, hpol, f1, hp]
+    simp
 
 theorem own2_rmCurrent (hΓ : Γ2 a g p) (hN : N g) (hvg : VG g) (hvp : VP g p) (hq : quiet (exec (.rmCurrent) g p).1)
     (htf : tf2 (.rmCurrent) a (exec (.rmCurrent) g p).2.2 = some x) : Γ2 x (exec (.rmCurrent) g p).1 (upd (exec (.rmCurrent) g p).2.1 pc t) := by
@@ -439,6 +447,20 @@ theorem own2_rmrfNext (hΓ : Γ2 a g p) (hN : N g) (hvg : VG g) (hvp : VP g p) (
     (htf : tf2 (.rmrfNext) a (exec (.rmrfNext) g p).2.2 = some x) : Γ2 x (exec (.rmrfNext) g p).1 (upd (exec (.rmrfNext) g p).2.1 pc t) := by
   have hK := keep_all (.rmrfNext) (pc := pc) (t := t) hΓ hvg hvp
   have hl := hl_of (.rmrfNext) (g := g) (p := p) (pc := pc) (t := t)
+  simp [tf2] at htf; subst htf
+  auto2 hK
+
+theorem own2_rmrfNextSrc (hΓ : Γ2 a g p) (hN : N g) (hvg : VG g) (hvp : VP g p) (hq : quiet (exec (.rmrfNextSrc) g p).1)
+    (htf : tf2 (.rmrfNextSrc) a (exec (.rmrfNextSrc) g p).2.2 = some x) : Γ2 x (exec (.rmrfNextSrc) g p).1 (upd (exec (.rmrfNextSrc) g p).2.1 pc t) := by
+  have hK := keep_all (.rmrfNextSrc) (pc := pc) (t := t) hΓ hvg hvp
+  have hl := hl_of (.rmrfNextSrc) (g := g) (p := p) (pc := pc) (t := t)
+  simp [tf2] at htf; subst htf
+  auto2 hK
+
+theorem own2_mkdirNextP (hΓ : Γ2 a g p) (hN : N g) (hvg : VG g) (hvp : VP g p) (hq : quiet (exec (.mkdirNextP) g p).1)
+    (htf : tf2 (.mkdirNextP) a (exec (.mkdirNextP) g p).2.2 = some x) : Γ2 x (exec (.mkdirNextP) g p).1 (upd (exec (.mkdirNextP) g p).2.1 pc t) := by
+  have hK := keep_all (.mkdirNextP) (pc := pc) (t := t) hΓ hvg hvp
+  have hl := hl_of (.mkdirNextP) (g := g) (p := p) (pc := pc) (t := t)
   simp [tf2] at htf; subst htf
   auto2 hK
 
@@ -520,6 +542,8 @@ theorem own2 {c : Cmd} (hΓ : Γ2 a g p) (hN : N g) (hvg : VG g) (hvp : VP g p) 
   | gitRevert => exact own2_revert hΓ hN hvg hvp hq htf
   | gitPullPlain => exact own2_pullPlain hΓ hN hvg hvp hq htf
   | rmrfNext => exact own2_rmrfNext hΓ hN hvg hvp hq htf
+  | rmrfNextSrc => exact own2_rmrfNextSrc hΓ hN hvg hvp hq htf
+  | mkdirNextP => exact own2_mkdirNextP hΓ hN hvg hvp hq htf
   | mkdirNext => exact own2_mkdirNext hΓ hN hvg hvp hq htf
   | mvNextTo => exact own2_mvNextTo hΓ hN hvg hvp hq htf
   | gitResetHash => exact own2_reset hΓ hN hvg hvp hq htf
